@@ -684,18 +684,18 @@ func (c *caseRun) oracle(di, sh uint64) {
 		c.fail("height-decreased", fmt.Sprintf("DA-included height went from %d to %d", c.prevDi, di))
 	}
 	c.prevDi = di
+	if di+1 < c.ih {
+		c.fail("height-below-initial", fmt.Sprintf("DA-included height %d is below initial height - 1 = %d", di, c.ih-1))
+	}
 	if di > sh {
 		c.fail("height-above-chain", fmt.Sprintf("DA-included height %d exceeds the chain height %d", di, sh))
 	}
-	// (nothing stored yet: 0, or initial height - 1 for a node that starts its count just below the first block)
-	if v, ok := c.metaU64(store.DAIncludedHeightKey); (ok && v != di) || (!ok && di != 0 && di != c.ih-1) {
+	// (nothing stored yet: initial height - 1)
+	if v, ok := c.metaU64(store.DAIncludedHeightKey); (ok && v != di) || (!ok && di != c.ih-1) {
 		c.fail("reported-differs-from-persisted", fmt.Sprintf("reported %d, metadata d = %d (present %v)", di, v, ok))
 	}
 	// effect log: +1 steps, SetFinal in order and before the report
-	var nd, lastFin uint64
-	if len(c.obs) > 0 && c.obs[0].di == c.ih-1 { // the count started just below the first block
-		nd, lastFin = c.ih-1, c.ih-1
-	}
+	nd, lastFin := c.ih-1, c.ih-1 // the count starts just below the first block
 	finSeen := map[uint64]bool{}
 	bootSinceFin := false
 	for _, e := range c.nd.w.snapshot() {
@@ -810,7 +810,7 @@ func (c *caseRun) quiesce() {
 	want, di := c.expectedFinal(), c.nd.m.GetDAIncludedHeight()
 	if di < want {
 		sig := "not-eventually-included"
-		if c.ih > 1 && di == 0 {
+		if c.ih > 1 && di+1 < c.ih { // the count never reached the first block that exists
 			sig = "initial-height-gt1-includer-stuck"
 		} else if c.mode == "agg" && c.lostMark {
 			sig = "aggregator-crash-loses-da-marks"
@@ -882,17 +882,7 @@ func runCase(t *testing.T, mode string, ih uint64, hist []Op, idx int, withKeys 
 				return
 			}
 		}
-		if ih > 1 { // heights below the initial height: counted by the store height, no block
-			holes := make([]string, ih-1)
-			for i := range holes {
-				holes[i] = "IHole"
-			}
-			c.synced = ih - 1
-			c.groups = append(c.groups, vgen.List(holes))
-			sh, _ := c.nd.m.GetStoreHeight(ctx)
-			nx, err := c.nd.m.IsDAIncluded(ctx, 1)
-			c.obs = append(c.obs, obsRec{c.nd.m.GetDAIncludedHeight(), sh, err == nil && nx})
-		}
+		c.synced = ih - 1
 		for _, op := range hist {
 			c.exec(op)
 			if c.harnessE != nil {
@@ -1007,8 +997,8 @@ func (c *caseRun) coqCase(idx int, withKeys bool) string {
 	for _, d := range c.deaths {
 		deaths = append(deaths, fmt.Sprint(d))
 	}
-	return fmt.Sprintf("Definition c%d : icase := {| ic_ops := %s;\n ic_obs := %s;\n ic_trace := %s;\n ic_death := %s;\n ic_meta := %s;\n ic_hm := %s;\n ic_dm := %s;\n ic_keys := %s |}.",
-		idx, vgen.List(c.groups), vgen.List(obs), vgen.List(trace), vgen.List(deaths), vgen.List(meta), vgen.List(hm), vgen.List(dm), vgen.List(keys))
+	return fmt.Sprintf("Definition c%d : icase := {| ic_base := %d; ic_ops := %s;\n ic_obs := %s;\n ic_trace := %s;\n ic_death := %s;\n ic_meta := %s;\n ic_hm := %s;\n ic_dm := %s;\n ic_keys := %s |}.",
+		idx, c.ih-1, vgen.List(c.groups), vgen.List(obs), vgen.List(trace), vgen.List(deaths), vgen.List(meta), vgen.List(hm), vgen.List(dm), vgen.List(keys))
 }
 
 func caseRng(seed int64, c int) *rand.Rand { return rand.New(rand.NewSource(seed*1000003 + int64(c))) }
